@@ -10,6 +10,9 @@ enum MathFn
     FN_ATAN2, FN_HYPOT, FN_POW, // 2 in
     FN_FABS, FN_ABS, FN_RINT, FN_NEARBYINT, // identities of C12
     FN_IPOW, // pow(batch, int): in1[first lane of the batch] holds the integer exponent (C14 only)
+    // further public functions of real batches, monitored for termination / bounded time only (C14)
+    FN_FMOD, FN_REMAINDER, FN_FDIM, FN_FMIN, FN_FMAX, FN_NEXTAFTER, FN_COPYSIGN, FN_LDEXP_INT, FN_FREXP_MANT,
+    FN_RECIPROCAL, FN_RSQRT, FN_ROUND, FN_CEIL, FN_FLOOR, FN_TRUNC, FN_SIGN, FN_CLIP_UNIT, FN_POLAR_RE,
     FN_COUNT
 };
 struct MathFnInfo
@@ -22,6 +25,8 @@ static const MathFnInfo MATHFN[FN_COUNT] = {
     { "sin", 1, 1 }, { "cos", 1, 1 }, { "tan", 1, 1 }, { "asin", 1, 1 }, { "acos", 1, 1 }, { "atan", 1, 1 }, { "sinh", 1, 1 }, { "cosh", 1, 1 }, { "tanh", 1, 1 },
     { "asinh", 1, 1 }, { "acosh", 1, 1 }, { "atanh", 1, 1 }, { "cbrt", 1, 1 }, { "erf", 1, 1 }, { "erfc", 1, 1 }, { "tgamma", 1, 1 }, { "lgamma", 1, 1 },
     { "sincos", 1, 2 }, { "atan2", 2, 1 }, { "hypot", 2, 1 }, { "pow", 2, 1 }, { "fabs", 1, 1 }, { "abs", 1, 1 }, { "rint", 1, 1 }, { "nearbyint", 1, 1 }, { "pow_int_exponent", 2, 1 },
+    { "fmod", 2, 1 }, { "remainder", 2, 1 }, { "fdim", 2, 1 }, { "fmin", 2, 1 }, { "fmax", 2, 1 }, { "nextafter", 2, 1 }, { "copysign", 2, 1 }, { "ldexp_int", 2, 1 }, { "frexp_mantissa", 1, 1 },
+    { "reciprocal", 1, 1 }, { "rsqrt", 1, 1 }, { "round", 1, 1 }, { "ceil", 1, 1 }, { "floor", 1, 1 }, { "trunc", 1, 1 }, { "sign", 1, 1 }, { "clip", 1, 1 }, { "polar_real_part", 2, 1 },
 };
 // C ABI exported by every lib<arch>.so
 extern "C"
